@@ -156,6 +156,13 @@ PLANS['C03'] = {
                        'thorough': [('exact', 200, 4, 16), ('exactbig', 40, 3, 16)]}),
 }
 
+PLANS['C20'] = {
+    'level': 'model_checking', 'tv_spec': 'TV_API',
+    'run': api_runner({'quick': [('cint', 20, 40, 16)], 'thorough': [('cint', 250, 60, 16)]},
+                      rule='one evaluation = one C interface call (paired with the C++ call on a mirror object): state of the C object, C results, argument conversion and array guard words checked by TLC',
+                      keyfn=lambda ev: (ev.get('a'), ev.get('cname', ev.get('name', '')), json.dumps(ev.get('cargs', ev.get('g')))[:300]) if ev.get('a') in ('ccall', 'mod') else None),
+}
+
 def params_runner(sizes):
     def run(ctx):
         bdir = ctx['build']('rel', ['params_drv'])
